@@ -169,6 +169,7 @@ void gen_c20(Plan &p, Rng &r, bool thorough) {
   (void)thorough;
   uint64_t ctr = 0;
   Task t;
+  p.world.mem_policy = (int)r.below(3);
   int ninv = 1 + (r.chance(1, 3) ? 1 : 0) + (r.chance(1, 8) ? 1 : 0);
   {
     FileSpec d;
@@ -263,6 +264,15 @@ void gen_c20(Plan &p, Rng &r, bool thorough) {
     // program
     std::vector<std::string> prog;
     int nl = (int)r.geom(1, 30, 7);
+    if (r.chance(1, 40)) {
+      nl = (int)r.range(1300, 2800);  // more than one growth quantum of code
+      // stdin + -c + -p dumps the whole buffer after every line: quadratic output, not worth simulating at this size
+      if (fitting && print) {
+        for (size_t q = 0; q < flags.size(); q++)
+          if (flags[q] == "-p" || flags[q] == "--print") flags.erase(flags.begin() + (long)q--);
+        print = false;
+      }
+    }
     if (run) {
       prog = exec_prog(r, nl);
     } else {
